@@ -4,7 +4,7 @@
 set -e
 cd "$(dirname "$0")/.."
 b="$1"
-GEN="MANIFEST.json lean/Driver.lean lean/EdzedModel.lean lean/EdzedProofs.lean lean/EdzedProps.lean lean/EdzedModel/Gen/Constants.lean lean/EdzedModel/Gen/Translated.lean lean/EdzedModel/Gen/TranslatedFilters.lean"
+GEN="MANIFEST.json lean/Driver.lean lean/EdzedModel.lean lean/EdzedProofs.lean lean/EdzedProps.lean $(ls lean/EdzedModel/Gen/*.lean | tr "\n" " ")"
 # local changes (evidence rewritten by check runs) would block the merge
 git add -A; git commit -qm "work in progress before merging $b" || true
 git merge --no-commit "$b" || true
